@@ -238,7 +238,7 @@ func symModel(regs []symReg, input string) (val string, typ int64, typed bool) {
 		return best, bt, true
 	}
 	rs := []rune(input)
-	return string(rs[:1]), 0, false
+	return string(rs[:1]), -1, false // an unregistered single character: a plain Symbol token
 }
 
 var symxMemo *simpleVerdict
@@ -316,6 +316,25 @@ func (c *Ctx) symxRun() *simpleVerdict {
 		}
 	}
 	reci("", 4)
+	symbolType, _ := c.constByName("tokenizers", "Symbol")
+	// the whole input list is followed by its short members again: a cached symbol text must survive its siblings
+	n0 := len(inputs)
+	for _, in := range inputs[:n0] {
+		if len(in) <= 2 {
+			inputs = append(inputs, in)
+		}
+	}
+	// symbols longer than three characters with unregistered intermediate prefixes; symbols starting with non-ASCII characters
+	type special struct {
+		regs   []symReg
+		inputs []string
+	}
+	specials := []special{
+		{[]symReg{{"=:~x", 120}}, []string{"=:~x", "=:~", "=:~a", "=:a", "=a", "=", "=:~xx"}},
+		{[]symReg{{"<<<<<", 121}, {"<", 122}}, []string{"<<<<<", "<<<<", "<<<a", "<<a", "<a", "<<<<<<"}},
+		{[]symReg{{"=<>=", 123}, {"=<", 124}}, []string{"=<>=", "=<>", "=<>a", "=<a", "=a"}},
+		{[]symReg{{"≠", 125}, {"é=", 126}, {"«»", 127}, {"=é", 128}}, []string{"≠", "≠a", "é=", "é", "éa", "«»", "«a", "=é", "=a", "«»«»"}},
+	}
 	ctor := c.MustFunc("tokenizers/generic", "", "NewGenericSymbolState")
 	st := ctor.Signature.Results().At(0).Type()
 	newScanner := c.MustFunc("io", "", "NewStringScanner")
@@ -331,8 +350,15 @@ func (c *Ctx) symxRun() *simpleVerdict {
 			v := &simpleVerdict{}
 			parts[w] = v
 			m := newMach(c)
-			for i := w; i < len(sets); i += nw {
-				set := sets[i]
+			for i := w; i < len(sets)+len(specials); i += nw {
+				var set []symReg
+				inputs := inputs
+				if i < len(sets) {
+					set = sets[i]
+				} else {
+					set = specials[i-len(sets)].regs
+					inputs = append(append([]string{}, specials[i-len(sets)].inputs...), specials[i-len(sets)].inputs...)
+				}
 				m.steps = 0
 				state, out := m.Call(ctor)
 				if out.kind != "ok" {
@@ -412,6 +438,8 @@ func (c *Ctx) symxRun() *simpleVerdict {
 						v.bad = fmt.Sprintf("%s returns %q and leaves %q in the scanner: it does not consume exactly the symbol", where, gv, rest.String())
 					case typed && gt != wantTyp:
 						v.bad = fmt.Sprintf("%s returns %q with token type %d; the symbol was registered with type %d", where, gv, gt, wantTyp)
+					case !typed && gt != symbolType:
+						v.bad = fmt.Sprintf("%s returns the unregistered character %q with token type %d; a single character that is no registered symbol is a plain Symbol token (%d) whatever longer symbols start with it", where, gv, gt, symbolType)
 					}
 				}
 			}
@@ -588,6 +616,49 @@ func (c *Ctx) mapdRun() *simpleVerdict {
 			v.bad = fmt.Sprintf("generic tokenizer with the range 0x400-0x4FF given to the word state tokenizes \"жa\" as [%s]", renderToks(r.toks))
 		}
 		v.runs++
+	}
+	// the character classes of the whitespace and word states: a disabled range is really disabled
+	h3 := c.newTkHarness("generic")
+	h3.setOptions(0)
+	if wsState, out := h3.call("WhitespaceState"); out.kind == "ok" {
+		if wi, ok := wsState.(mIface); ok {
+			sym, _ := h3.call("SymbolState")
+			if _, out := callM(c, h3.m, wi.t, "SetWhitespaceChars", wi.v, int64('\n'), int64('\n'), false); out.kind == "ok" {
+				h3.call("SetCharacterState", int64('\n'), int64('\n'), sym)
+				r := h3.tokenize("a \n b")
+				want := `Word("a")@1:1 Whitespace(" ")@1:2 Symbol("\n")@2:0 Whitespace(" ")@2:1 Word("b")@2:2 Eof("")@2:3`
+				if r.kind == "ok" && renderToks(r.toks) != want && v.bad == "" {
+					v.bad = fmt.Sprintf("generic tokenizer with LF removed from the whitespace characters and handed to the symbol state tokenizes \"a \\n b\" as [%s]; expected [%s]: the disabled range is still whitespace", renderToks(r.toks), want)
+				} else if r.kind != "ok" && v.undec == "" {
+					v.undec = "whitespace class scenario: " + r.why
+				}
+				v.runs++
+			}
+		}
+	}
+	h4 := c.newTkHarness("generic")
+	h4.setOptions(0)
+	if wdState, out := h4.call("WordState"); out.kind == "ok" {
+		if wi, ok := wdState.(mIface); ok {
+			if _, out := callM(c, h4.m, wi.t, "SetWordChars", wi.v, int64('0'), int64('9'), false); out.kind == "ok" {
+				r := h4.tokenize("a1 ж2")
+				want := `Word("a")@1:1 Integer("1")@1:2 Whitespace(" ")@1:3 Word("ж")@1:4 Integer("2")@1:5 Eof("")@1:6`
+				if r.kind == "ok" && renderToks(r.toks) != want && v.bad == "" {
+					v.bad = fmt.Sprintf("generic tokenizer with the digits removed from the word characters tokenizes \"a1 ж2\" as [%s]; expected [%s]: the disabled range is still part of words", renderToks(r.toks), want)
+				} else if r.kind != "ok" && v.undec == "" {
+					v.undec = "word class scenario: " + r.why
+				}
+				v.runs++
+			}
+			if _, out := callM(c, h4.m, wi.t, "SetWordChars", wi.v, int64('0'), int64('9'), true); out.kind == "ok" {
+				r := h4.tokenize("a1 ж2")
+				want := `Word("a1")@1:1 Whitespace(" ")@1:3 Word("ж2")@1:4 Eof("")@1:6`
+				if r.kind == "ok" && renderToks(r.toks) != want && v.bad == "" {
+					v.bad = fmt.Sprintf("generic tokenizer with the digits enabled again as word characters tokenizes \"a1 ж2\" as [%s]; expected [%s]", renderToks(r.toks), want)
+				}
+				v.runs++
+			}
+		}
 	}
 	return v
 }
